@@ -170,10 +170,16 @@ pub fn check_c10_c11(prop: &str, case: &Case, plan: &AsyncPlan, order: (usize, u
     let label = match prop {
         "C20" => "C20",
         "C04" => "C04",
+        "C09" => "C09",
+        "C02" => "C02",
         _ => "C10",
     };
-    // C04 only judges termination without panicking (verdicts and request counts are C10's business)
+    // C04 only judges termination without panicking (verdicts and request counts are C10's business);
+    // C09 only "each request at most once"; C02 only the verdict (it must not depend on the order in
+    // which metadata happened to be fetched)
     let termination_only = prop == "C04";
+    let duplicates_only = prop == "C09";
+    let verdict_only = prop == "C02";
     let sem = Sem::new(&case.u, &case.p);
     let mut sync_cfg = RunCfg::default();
     sync_cfg.hint_override = plan.hint.clone();
@@ -192,7 +198,16 @@ pub fn check_c10_c11(prop: &str, case: &Case, plan: &AsyncPlan, order: (usize, u
         runs_here += 1;
         distinct_logs.insert(log_hash(&res.log));
         let detail = || json!({"schedule": res.trace.iter().map(|t| t.0).collect::<Vec<_>>(), "plan": format!("{plan:?}"), "outcome": res.outcome.short(), "log": format!("{:?}", res.log)});
-        if prop != "C11" {
+        if duplicates_only {
+            if let Some(d) = dup_requests(&res.log) {
+                acc.violation(viol(label, "duplicate-request", d, case, detail(), order));
+            }
+        } else if verdict_only {
+            match (&res.outcome, &reference.outcome) {
+                (Outcome::Ok(_), Outcome::Unsat) | (Outcome::Unsat, Outcome::Ok(_)) => acc.violation(viol(label, "verdict-depends-on-fetch-order", format!("sync run says {}, this completion order says {}", reference.outcome.short(), res.outcome.short()), case, detail(), order)),
+                _ => {}
+            }
+        } else if prop != "C11" {
             match &res.outcome {
                 Outcome::Deadlock => acc.violation(viol(label, "deadlock", "solve waits for something that can never complete".into(), case, detail(), order)),
                 // stopped by the wall-clock monitor (machine overloaded, or a genuine hang that the monitor
